@@ -528,3 +528,74 @@ def c17j(ctx):
             continue
         (ctx.ok if o.status == 'ok' else ctx.bad)('%s:%s' % (o.rule, o.construct), o.msg, o.where)
     ctx.stats['functions'] |= sub.stats['functions']
+
+
+@rule('C17.k', floor=2)
+def c17k(ctx):
+    """the SRS asked for upstream is one of the configured ones -- the object from the source's own list, with the code that is
+    written there: SRS objects with different codes compare equal (EPSG:3857 / EPSG:900913), so the choice among the supported SRSs
+    (PreferredSrcSRS.preferred_src) answers with the element of `available_src` that matched, never with the equal object it was
+    compared with (the requested SRS, an entry of the global preference list)"""
+    fn = ctx.fn('mapproxy/srs.py:PreferredSrcSRS.preferred_src')
+    avail = fn.params[2]
+    rets = returns_of(fn.node)
+    ok = bool(rets)
+    detail = ''
+    for r in rets:
+        v = r.value
+        good = False
+        if isinstance(v, ast.Subscript) and unparse(v.value) == avail:
+            good = True                 # available_src[i]
+        elif isinstance(v, ast.Name):
+            # a loop variable over available_src
+            lp = enclosing(r, ast.For)
+            while lp is not None and not (unparse(lp.target) == v.id and same(lp.iter, avail)):
+                lp = enclosing(lp, ast.For)
+            good = lp is not None
+        if not good:
+            ok = False
+            detail = 'returns %s' % unparse(v)
+    ctx.check(ok, 'PreferredSrcSRS.preferred_src:answers-from-the-supported-list', 'every answer is an element of available_src', fn,
+              fail='preferred_src %s, an object that merely compares equal to a supported SRS: the upstream request carries an SRS code that is '
+                   'not in supported_srs' % detail)
+    bs = ctx.fn('mapproxy/srs.py:SupportedSRS.best_srs')
+    ok = any(is_call(x, 'self.preferred_srs.preferred_src') and len(x.args) >= 2 and same(x.args[1], 'self.supported_srs') for x in bs.walk())
+    ctx.check(ok, 'SupportedSRS.best_srs:chooses-among-supported', 'best_srs chooses among self.supported_srs', bs)
+
+
+GATE_PARAMS = ('coverage', 'res_range', 'supported_srs', 'supported_formats')
+SOURCE_CLASSES = ['mapproxy/source/wms.py:WMSSource', 'mapproxy/source/arcgis.py:ArcGISSource', 'mapproxy/source/tile.py:TiledSource',
+                  'mapproxy/source/mapnik.py:MapnikSource']
+
+
+@rule('C17.l', floor=10)
+def c17l(ctx):
+    """what a source is gated with is what it was configured with: every source class keeps the gate settings its constructor receives
+    (coverage, resolution range, supported SRS / formats) -- it stores them on the instance or hands them to the constructor of its
+    base class under the same name.  A setting that is accepted and then dropped (ArcGISSource(..., res_range=r) that does not pass r
+    on) leaves the gate open: the source is contacted at every resolution"""
+    for q in SOURCE_CLASSES:
+        cls = ctx.repo.cls(q)
+        init = cls.own_method('__init__')
+        if init is None:
+            raise Undecided('%s: no own constructor' % q)
+        defs = Defs(init.node)
+        for p in GATE_PARAMS:
+            if p not in init.params:
+                continue
+            stored = [s for s in init.walk() if isinstance(s, ast.Assign) and unparse(s.targets[0]) == 'self.' + p and
+                      depends(s.value, lambda y, p=p: isinstance(y, ast.Name) and y.id == p, defs)]
+            handed = []
+            for x in init.walk():
+                if isinstance(x, ast.Call) and isinstance(x.func, ast.Attribute) and x.func.attr == '__init__':
+                    base = ctx.repo.resolve_name(init.mod, x.func.value)
+                    bk = ctx.repo.classes.get(base) if base else None
+                    binit = bk.method('__init__') if bk is not None else None
+                    if binit is None or p not in binit.params:
+                        continue
+                    v = keyword(x, p, binit.params.index(p))        # (explicit self is the first positional argument)
+                    if v is not None and depends(v, lambda y, p=p: isinstance(y, ast.Name) and y.id == p, defs):
+                        handed.append(x)
+            ctx.check(bool(stored) or bool(handed), '%s.__init__:%s-kept' % (cls.name, p),
+                      'the %s given to %s is %s' % (p, cls.name, 'stored on the instance' if stored else 'handed to the base constructor'), init,
+                      fail='%s accepts `%s` but neither stores it nor hands it to its base class: the configured %s does not gate the source' % (cls.name, p, p))
